@@ -1,4 +1,4 @@
-import GohtVerif.Model.Render
+import GohtVerif.Model.Exec
 import GohtVerif.Proofs.C06
 import GohtVerif.Proofs.C07
 import GohtVerif.Proofs.C10
